@@ -144,6 +144,23 @@ Srv(m) ==
      \/ /\ ~Expected(act, l) /\ l # "DEACT"     \* everything else is ignored: no output, no delivery, no move
         /\ UNCHANGED <<act, shareId>> /\ Quiet /\ obs' = ObsNext(obs, l)
 
+\* Several share control PDUs in one MCS user data, received in the active state (global::Client::read_data_pdu
+\* walks the whole payload).  Class covered: slow-path PDUs only, and no demand-active after a deactivate-all of the
+\* same train - on this class looking at every element in turn is exactly the sequential semantics of Srv, so the
+\* window must close on a deactivate-all WHEREVER it stands in the train.  Outside the class the implementation
+\* deviates from the sequential semantics (named deviations, not generated: a train received during the handshake
+\* is read up to its first PDU only; a demand-active that follows a deactivate-all in the same train is not answered).
+TrainLetters == {"DA", "SYNC", "COOP", "GRANTED", "CTLOTHER", "FONTMAP", "ERRINFO", "UNKDATA", "DEACT"}
+TrainClass(ms) == /\ Len(ms) >= 2
+                  /\ \A k \in 1..Len(ms) : Letter(ms[k]) \in TrainLetters
+                  /\ \A j, k \in 1..Len(ms) : (j < k /\ Letter(ms[j]) = "DEACT") => Letter(ms[k]) # "DA"
+SrvTrain(ms) ==
+  /\ act = "Active" /\ TrainClass(ms)
+  /\ inres' = "none" /\ UNCHANGED <<userId, shareId>> /\ Quiet
+  /\ IF \E k \in 1..Len(ms) : Letter(ms[k]) = "DEACT"
+     THEN act' = "WaitDemandActive" /\ obs' = [stage |-> "da", open |-> FALSE]
+     ELSE UNCHANGED <<act, obs>>
+
 \* one call of RdpClient::write (lenient = FALSE) or try_write (lenient = TRUE)
 Input(e, lenient) ==
   /\ UNCHANGED <<act, shareId, userId, obs>> /\ cbs' = <<>>
@@ -177,7 +194,9 @@ ModelInputs ==
   \cup { [t |-> "key", code |-> c, down |-> d] : c \in Coords, d \in BOOLEAN }
   \cup { [t |-> "bmp"] }
 
+ModelTrains == { <<a, b>> : a, b \in { m \in ModelMsgs : m.kind \in {"Sync", "ErrInfo", "DeactivateAll", "DemandActive"} /\ ~OffChannel(m) } }
 Next == \/ \E m \in ModelMsgs : Srv(m)
+        \/ \E ms \in ModelTrains : SrvTrain(ms)
         \/ \E e \in ModelInputs, len \in BOOLEAN : Input(e, len)
         \/ Shutdown
 
